@@ -91,6 +91,7 @@ def build_impl(n, ld):
     d = K[0] if K else None
     if op == 'map': return d.map(F.PyF(a[0]))
     if op == 'parmap': return d.map(F.PyF(a[0]), num_workers=a[1], buffer_size=a[2], backend=a[3])
+    if op == 'batchmap': return d.batch_map(F.PyF(a[0]))
     if op == 'filter': return d.filter(F.PyQ(a[0]), lazy=a[1])
     if op == 'catch': return d.catch(E_to_py(a[0]))
     if op == 'prefetch': return d.prefetch(a[0], a[1], backend=a[3], catch_filter_exception=E_to_py(a[2]))
@@ -157,6 +158,7 @@ def coq_prog(n):
         return f'(PDict {coq_list(["(%s, %s)" % (coq_str(k), coq_val(v)) for k, v in a[0]])})'
     if op == 'map': return f'(PMap {F.coq_f(a[0])} {d})'
     if op == 'parmap': return f'(PParMap {F.coq_f(a[0])} {nat(a[1])} {nat(a[2])} {d})'
+    if op == 'batchmap': return f'(PMap (batch_map_fn {F.coq_f(a[0])}) {d})'
     if op == 'filter': return f'(PFilter {F.coq_q(a[0])} {b(a[1])} {d})'
     if op == 'catch': return f'(PCatch {coq_E(a[0])} {d})'
     if op == 'prefetch': return f'(PPrefetch {nat(a[0])} {nat(a[1])} {coq_opt(a[2], coq_E)} {d})'
@@ -269,7 +271,7 @@ class Case:
 
 HEADER = """From Coq Require Import String.
 From Coq Require Import List ZArith Bool.
-Require Import LD.Base LD.PySlice LD.Pipeline LD.Fn LD.Build LD.Ref LD.RefCheck.
+Require Import LD.Base LD.PySlice LD.Pipeline LD.Fn LD.Build LD.Ref LD.RefCheck LD.Laws.
 Import ListNotations.
 Open Scope Z_scope.
 Open Scope string_scope.
